@@ -248,6 +248,17 @@ class ElementList(MutableSequence):
             except KeyError:
                 self.indexes[child.name] = [child]
             self.list.insert(index, child)
+        elif child.parent == self.element and child in self.list:
+            # the child has just been attached through its parent setter, which appends it:
+            # move it to the requested position in both the list and the by-name index
+            self.list.remove(child)
+            self.list.insert(index, child)
+            siblings = self.indexes[child.name]
+            siblings.remove(child)
+            if by_name_index == -1:
+                siblings.append(child)
+            else:
+                siblings.insert(by_name_index, child)
 
     def append(self, child):
         """
